@@ -207,6 +207,20 @@ static int str_convert(MPT_INTERFACE(convertable) *c, MPT_TYPE(type) type, void 
 }
 static const MPT_INTERFACE_VPTR(convertable) str_ctl = { str_convert };
 
+/* convertable that has exactly one type and no value */
+struct none_conv {
+	MPT_INTERFACE(convertable) _conv;
+	int tid;
+};
+static int none_convert(MPT_INTERFACE(convertable) *c, MPT_TYPE(type) type, void *dest)
+{
+	struct none_conv *s = (struct none_conv *) c;
+	(void) dest;
+	if (type && (int) type == s->tid) return 0;
+	return MPT_ERROR(BadType);
+}
+static const MPT_INTERFACE_VPTR(convertable) none_ctl = { none_convert };
+
 /* every listed property by position */
 static void put_dump(const struct obj *ob)
 {
@@ -353,6 +367,84 @@ int main(void)
 			ret = kind_set(ob->kind, ob->data, name, &sc._conv);
 			fail_disarm();
 			free(val); free(dat); free(name);
+			result(ret < 0 ? "refused" : "ok", ob, ret);
+		}
+		else if (!strcmp(op, "auto") && drv_nw == 4) {
+			/* no property name (NULL): the value is assigned by its type */
+			struct obj *ob = parse_obj(drv_w[2]);
+			uint8_t *dat = 0; size_t dlen = 0; int isnull = 0, ret;
+			if (!ob) { puts("bad-op"); continue; }
+			if (!strcmp(drv_w[3], "null")) ret = ob->_obj._vptr->set_property(&ob->_obj, 0, 0);
+			else if (!strcmp(drv_w[3], "nullstr")) ret = mpt_object_set_string(&ob->_obj, 0, 0, 0);
+			else {
+				char *val;
+				if (drv_parse_data(drv_w[3], &dat, &dlen, &isnull) || isnull || memchr(dat, 0, dlen)) { puts("bad-op"); free(dat); continue; }
+				val = malloc(dlen + 1);
+				memcpy(val, dat, dlen); val[dlen] = 0;
+				ret = mpt_object_set_string(&ob->_obj, 0, val, 0);
+				free(val); free(dat);
+			}
+			result(ret < 0 ? "refused" : "ok", ob, ret);
+		}
+		else if (!strcmp(op, "autonone") && drv_nw == 4) {
+			/* no name, a source that answers exactly one type (colour / line attributes) with "no value" */
+			struct obj *ob = parse_obj(drv_w[2]);
+			struct none_conv nc;
+			int ret;
+			if (!ob || (strcmp(drv_w[3], "colour") && strcmp(drv_w[3], "lattr"))) { puts("bad-op"); continue; }
+			nc._conv._vptr = &none_ctl;
+			nc.tid = drv_w[3][0] == 'c' ? mpt_color_typeid() : mpt_lattr_typeid();
+			if (nc.tid <= 0) { puts("bad-op"); continue; }
+			ret = kind_set(ob->kind, ob->data, 0, &nc._conv);
+			result(ret < 0 ? "refused" : "ok", ob, ret);
+		}
+		else if (!strcmp(op, "autocopy") && drv_nw == 4) {
+			struct obj *ob = parse_obj(drv_w[2]), *from = parse_obj(drv_w[3]);
+			struct src_conv sc;
+			int ret;
+			if (!ob || !from || ob->kind == K_LINE) { puts("bad-op"); continue; }
+			sc._conv._vptr = &src_ctl;
+			sc.from = from;
+			ret = kind_set(ob->kind, ob->data, 0, &sc._conv);
+			if (ret < 0) result("refused", ob, ret);
+			else result_s(shares_string(ob, from) ? "ok owns=0" : "ok owns=1", ob, "ok");
+		}
+		else if (!strcmp(op, "setp") && drv_nw == 5) {
+			/* mpt_object_set_property(): the property comes as identifier (as from a configuration node), the value
+			 * as a convertable that yields text */
+			struct obj *ob = parse_obj(drv_w[2]);
+			char *name = parse_name(drv_w[3]);
+			uint8_t *dat = 0; size_t dlen = 0; int isnull = 0, ret;
+			struct str_conv sc;
+			MPT_STRUCT(identifier) id;
+			char *val;
+			if (!ob || !name || !*name || drv_parse_data(drv_w[4], &dat, &dlen, &isnull) || isnull || memchr(dat, 0, dlen)) {
+				puts("bad-op"); free(name); free(dat); continue;
+			}
+			val = malloc(dlen + 1);
+			memcpy(val, dat, dlen); val[dlen] = 0;
+			sc._conv._vptr = &str_ctl;
+			sc.txt = val;
+			mpt_identifier_init(&id, sizeof(id));
+			if (!mpt_identifier_set(&id, name, -1)) { puts("bad-op"); free(val); free(dat); free(name); continue; }
+			ret = mpt_object_set_property(&ob->_obj, MPT_ENUM(TraverseChange) | MPT_ENUM(TraverseDefault) | MPT_ENUM(TraverseEmpty), &id, &sc._conv);
+			mpt_identifier_set(&id, 0, 0);
+			free(val); free(dat); free(name);
+			result(ret < 0 ? "refused" : "ok", ob, ret);
+		}
+		else if (!strcmp(op, "lattr") && drv_nw == 7) {
+			/* mpt_lattr_set(attr, width, style, symbol, size) on the line attributes of a line or world; -1 = default */
+			struct obj *ob = parse_obj(drv_w[2]);
+			int v[4], ret, bad = 0;
+			for (int i = 0; i < 4; i++) {
+				char *end = 0;
+				long x = strtol(drv_w[3 + i], &end, 10);
+				if (!end || *end || end == drv_w[3 + i] || x < -1 || x > 300) bad = 1;
+				v[i] = (int) x;
+			}
+			if (!ob || bad || (ob->kind != K_LINE && ob->kind != K_WORLD)) { puts("bad-op"); continue; }
+			ret = mpt_lattr_set(ob->kind == K_LINE ? &((MPT_STRUCT(line) *) ob->data)->attr : &((MPT_STRUCT(world) *) ob->data)->attr,
+			                    v[0], v[1], v[2], v[3]);
 			result(ret < 0 ? "refused" : "ok", ob, ret);
 		}
 		else if (!strcmp(op, "set") && drv_nw == 5) {
